@@ -1,14 +1,390 @@
 //go:build go1.21
 
+// C06 — dead-code stripping (watstrip.WatStrip, `wa build --optimize`) preserves behaviour.
+//
+// Space: the `graph` family — every directed call graph on n defined functions plus at most one
+// imported function, times every assignment of root kinds (export, start function, table elem
+// entry; table entries are observed through an exported call_indirect trampoline) to defined and
+// imported functions, with direct and call_indirect call sites; the same with self loops and
+// cycles; with every placement of the call sites in block / loop / if-then / if-else nests and in
+// dead positions (after br, after br_if, after unreachable, in the arm not taken); in the surface
+// styles of the frozen dialect; with extra globals / memory / data present or absent; with
+// anonymous functions and table.get/table.set present. Plus the stored testdata files and real
+// compiler output. Oracles: (1) the stripped text assembles and V8 validates it; (2) every call of
+// a fixed call sequence (start effects, every export, every table slot, a stateful sequence)
+// gives the same result, trap and host-call trace on the original and the stripped module, on the
+// embedded wazero engine and on V8; (3) nothing in the independent reachability closure (exports,
+// start, elem; over call instructions) is removed; (4) export list and imports do not change.
 package main
 
 import (
+	"encoding/json"
+	"fmt"
 	"os"
+	"sort"
+	"strings"
+	"sync"
+	"time"
+
+	"wa-lang.org/wa/internal/zzverif/mc"
+	"wa-lang.org/wa/internal/zzverif/v8x"
 )
+
+const ID = "C06"
+
+// ---------------------------------------------------------------------------------------------
+// worker
+
+type job struct {
+	Kind     string     `json:"kind"` // "shard" or "corpus"
+	Thorough bool       `json:"thorough"`
+	From     int        `json:"from"` // block range [From, To)
+	To       int        `json:"to"`
+	SpecFrom int        `json:"spec_from"` // with To == From+1: spec range inside the block, SpecTo < 0 = all
+	SpecTo   int        `json:"spec_to"`
+	Order0   int64      `json:"order0"`
+	Corpus   *corpusJob `json:"corpus,omitempty"`
+}
+
+var (
+	wBlocks   []blockDesc
+	wThorough bool
+	wWz       *wzEngine
+	wV8       *v8x.V8
+	wJobs     int
+)
+
+func handleJob(raw json.RawMessage) interface{} {
+	var j job
+	if err := json.Unmarshal(raw, &j); err != nil {
+		return shardResult{Harness: "bad job: " + err.Error()}
+	}
+	if j.Kind == "corpus" {
+		return handleCorpus(*j.Corpus)
+	}
+	if wBlocks == nil || wThorough != j.Thorough {
+		wBlocks, wThorough = blocks(j.Thorough), j.Thorough
+	}
+	var specs []Spec
+	for b := j.From; b < j.To && b < len(wBlocks); b++ {
+		specs = append(specs, expand(wBlocks[b], j.Thorough)...)
+	}
+	if j.SpecTo >= 0 {
+		specs = specs[j.SpecFrom:min(j.SpecTo, len(specs))]
+	}
+	wJobs++
+	if wWz != nil && wJobs%64 == 0 {
+		wWz.close()
+		wWz = nil
+	}
+	if wWz == nil {
+		var err error
+		if wWz, err = newWz(); err != nil {
+			return shardResult{Harness: "wazero: " + err.Error()}
+		}
+	}
+	if wV8 == nil {
+		var err error
+		if wV8, err = v8x.Start(mc.VerifDir()); err != nil {
+			return shardResult{Harness: err.Error()}
+		}
+	}
+	res := evalShard(specs, j.Order0, wWz, wV8)
+	if strings.HasPrefix(res.Harness, "v8:") {
+		wV8.Close()
+		wV8 = nil
+	}
+	return res
+}
+
+// ---------------------------------------------------------------------------------------------
 
 func main() {
 	if s := os.Getenv("C06_PROBE"); s != "" {
 		probe(s)
 		return
 	}
+	if mc.IsWorker() {
+		mc.WorkerMain(handleJob)
+		return
+	}
+	r := mc.Start(ID)
+	t0 := time.Now()
+	lap := func(what string) {
+		if os.Getenv("VERIF_TIMING") != "" {
+			fmt.Fprintf(os.Stderr, "[%6.1fs] %s\n", time.Since(t0).Seconds(), what)
+		}
+	}
+	thorough := r.Thorough()
+
+	r.Rule("graph family, complete products, simplest first: {call graphs on n defined functions + k<=1 imported function} x {root assignment: export / start / elem per function} x {direct, call_indirect call sites}; the same with self loops; x every call-site placement (block/loop/then/else nests, dead positions, then/else pairs); x surface styles (numeric references, inline exports, declared types, comments, one or many elem segments); x extra globals/memory/data; anonymous exported functions; table.get/table.set; stored testdata files and compiler output. Each module is stripped by the real WatStrip, both texts are assembled by the real Wat2Wasm and run on wazero and V8 with recording host stubs. Two outcomes are distinct when the removed set, any call result, trap or host trace differs")
+	r.Bound("nodes_full_product", 3)
+	r.Bound("nodes_thorough", mc.Pick(r, 3, 4))
+	r.Bound("imports", 1)
+	r.Bound("placement_depth", mc.Pick(r, 2, 3))
+	r.Bound("fuel_per_call_sequence", fuel0)
+	r.Assume("supported subset = what Wa's parser accepts and Wat2Wasm assembles (frozen dialect of engine/watgen/frozen.go): functions are called and started by name; numeric references occur only where the dialect has them (export descriptors, elem items, call_indirect type/table, locals, globals, labels)")
+	r.Assume("the property demands soundness of removal (nothing reachable from exports, start, elem is removed; behaviour unchanged); functions that are unreachable but kept are counted as a note, not a violation")
+	r.Assume("behaviour = results, traps (trap / no trap; engines word messages differently) and the sequence of host calls of every call of the fixed call sequence, compared original vs stripped on the same engine")
+	r.Assume("imported functions are recording host stubs without results; recursion is bounded by a fuel global so that every call terminates")
+
+	bl := blocks(thorough)
+	sizes := make([]int, len(bl))
+	mc.ParallelFor(len(bl), func(i int) { sizes[i] = len(expand(bl[i], thorough)) })
+	famCases := map[string]int{}
+	total := 0
+	for i, b := range bl {
+		famCases[b.Fam] += sizes[i]
+		total += sizes[i]
+	}
+	lap(fmt.Sprintf("%d blocks, %d cases %v", len(bl), total, famCases))
+	if os.Getenv("C06_COUNT") != "" {
+		fmt.Println(len(bl), total, famCases)
+		return
+	}
+
+	// jobs: runs of blocks of about jobSize cases
+	const jobSize = 500
+	var jobs []job
+	var order int64
+	for i := 0; i < len(bl); {
+		j := job{Kind: "shard", Thorough: thorough, From: i, SpecTo: -1, Order0: order}
+		n := 0
+		for i < len(bl) && (n == 0 || n+sizes[i] <= jobSize) {
+			n += sizes[i]
+			i++
+		}
+		j.To = i
+		order += int64(n)
+		if n > 0 {
+			jobs = append(jobs, j)
+		}
+	}
+	cj := corpusJobs()
+	for i := range cj {
+		jobs = append(jobs, job{Kind: "corpus", Corpus: &cj[i]})
+	}
+	// corpus jobs compile (0.3 s each): start them first
+	sort.SliceStable(jobs, func(a, b int) bool { return jobs[a].Kind == "corpus" && jobs[b].Kind != "corpus" })
+	if s := r.Seed; s != 0 && len(jobs) > 1 {
+		k := int(uint64(s) % uint64(len(jobs)))
+		jobs = append(append([]job(nil), jobs[k:]...), jobs[:k]...)
+	}
+
+	var mu sync.Mutex
+	var stats shardStats
+	cands := map[string]*Cand{}
+	var keptNote string
+	var crashed []job
+	crashInfo := map[int]string{}
+	corpusSeen, corpusSkipped := 0, []string{}
+	corpusRemoved := 0
+	addCand := func(c Cand) {
+		k := fmt.Sprintf("%s|%08x", c.Base, c.Attrs)
+		if old, ok := cands[k]; ok && old.Order <= c.Order {
+			return
+		}
+		cc := c
+		cands[k] = &cc
+	}
+	capped := false
+	handle := func(jobsRun []job) func(res mc.Result) {
+		return func(res mc.Result) {
+			mu.Lock()
+			defer mu.Unlock()
+			j := jobsRun[res.Index]
+			if res.Status != "ok" {
+				crashed = append(crashed, j)
+				crashInfo[len(crashed)-1] = res.Status + ": " + tail(res.Stderr, 1500)
+				return
+			}
+			if j.Kind == "corpus" {
+				var cr corpusResult
+				if err := json.Unmarshal(res.Out, &cr); err != nil {
+					r.HarnessError("corpus result: %v", err)
+					return
+				}
+				if cr.Err != "" {
+					r.HarnessError("corpus %s: %s", cr.Name, cr.Err)
+					return
+				}
+				corpusSeen++
+				stats.Evals += cr.Evals
+				if cr.Skipped != "" {
+					corpusSkipped = append(corpusSkipped, cr.Name+": "+cr.Skipped)
+					return
+				}
+				corpusRemoved += cr.Removed
+				stats.KeptUnreachable += cr.KeptUnr
+				r.Distinct("corpus|" + cr.Name + "|" + cr.Outcome)
+				for _, c := range cr.Cands {
+					addCand(c)
+				}
+				if r.WantSample() && cr.Removed > 0 {
+					r.Sample(map[string]interface{}{"corpus": cr.Name, "functions": cr.Funcs, "reachable": cr.Reachable, "removed": cr.Removed, "calls": cr.Calls})
+				}
+				return
+			}
+			var sr shardResult
+			if err := json.Unmarshal(res.Out, &sr); err != nil {
+				r.HarnessError("shard result: %v", err)
+				return
+			}
+			if sr.Harness != "" {
+				r.HarnessError("shard %d-%d: %s", j.From, j.To, sr.Harness)
+			}
+			stats.add(sr.Stats)
+			for _, d := range sr.Distinct {
+				r.Distinct(d)
+			}
+			for _, c := range sr.Cands {
+				addCand(c)
+			}
+			if keptNote == "" {
+				keptNote = sr.KeptNote
+			}
+			for _, s := range sr.Samples {
+				if r.WantSample() {
+					r.Sample(s)
+				}
+			}
+		}
+	}
+
+	pool := mc.NewPool(mc.NWorkers(), nil)
+	defer pool.Close()
+	horizon := 20 * time.Minute // a shard costs a few seconds; this only classifies hangs
+	runJobs := func(js []job) {
+		live := js
+		if r.Expired() {
+			capped = true
+			return
+		}
+		err := pool.Run(len(live), func(i int) interface{} {
+			if r.Expired() {
+				capped = true
+				return job{Kind: "shard", Thorough: thorough, From: 0, To: 0, SpecTo: -1}
+			}
+			return live[i]
+		}, horizon, handle(live))
+		if err != nil {
+			r.HarnessError("pool: %v", err)
+		}
+	}
+	runJobs(jobs)
+	lap("first pass")
+
+	// a shard that killed or hung its worker: find the case, alone, five times
+	if len(crashed) > 0 {
+		first := crashed
+		crashed, crashInfo = nil, map[int]string{}
+		var singles []job
+		for _, j := range first {
+			if j.Kind == "corpus" {
+				singles = append(singles, j)
+				continue
+			}
+			o := j.Order0
+			for b := j.From; b < j.To; b++ {
+				for k := 0; k < sizes[b]; k++ {
+					singles = append(singles, job{Kind: "shard", Thorough: thorough, From: b, To: b + 1, SpecFrom: k, SpecTo: k + 1, Order0: o})
+					o++
+				}
+			}
+		}
+		horizon = 5 * time.Minute
+		runJobs(singles)
+		suspects := crashed
+		info := crashInfo
+		for si, j := range suspects {
+			fails := 1
+			for rep := 0; rep < 4; rep++ {
+				crashed, crashInfo = nil, map[int]string{}
+				runJobs([]job{j})
+				if len(crashed) > 0 {
+					fails++
+				}
+			}
+			crashed = nil
+			if fails < 5 {
+				r.HarnessError("a worker crash/hang did not reproduce (%d of 5): job %+v: %s", fails, j, info[si])
+				continue
+			}
+			if j.Kind == "corpus" {
+				addCand(Cand{Base: "corpus|crash or hang of the stripper/assembler", Order: 1 << 41, What: j.Corpus.Name + ": worker " + info[si], Replay: map[string]interface{}{"corpus": j.Corpus.Name}})
+				continue
+			}
+			specs := expand(bl[j.From], thorough)
+			s := specs[j.SpecFrom]
+			addCand(Cand{Base: "crash|the stripper or assembler kills or hangs the process", Attrs: caseAttrs(&s), Order: j.Order0,
+				What: "worker " + clip(info[si], 600), Replay: map[string]interface{}{"spec": s, "stderr": info[si]}})
+		}
+		lap("crash isolation")
+	}
+	if capped {
+		r.Cap("deadline")
+	}
+
+	// minimal attribute sets per base
+	byBase := map[string][]*Cand{}
+	for _, c := range cands {
+		byBase[c.Base] = append(byBase[c.Base], c)
+	}
+	for base, list := range byBase {
+		for _, c := range list {
+			minimal := true
+			for _, d := range list {
+				if d != c && d.Attrs&c.Attrs == d.Attrs && d.Attrs != c.Attrs {
+					minimal = false
+					break
+				}
+			}
+			if minimal {
+				key := ID + "|" + base
+				if !strings.HasPrefix(base, "corpus|") {
+					key += "|" + attrString(c.Attrs)
+				}
+				r.Report(key, c.What, c.Replay)
+			}
+		}
+	}
+
+	r.States.Store(int64(stats.Cases + corpusSeen))
+	r.Transitions.Store(int64(stats.EngineRuns))
+	r.Evals.Store(int64(stats.Evals))
+	r.Extra("cases_by_family", famCases)
+	r.Extra("graph_cases", stats.Cases)
+	r.Extra("engine_instances_observed", stats.EngineRuns)
+	r.Extra("cases_with_removal", stats.RemovedSome)
+	r.Extra("functions_removed", stats.RemovedFuncs)
+	r.Extra("cases_with_start_function", stats.StartCases)
+	r.Extra("stripped_binary_identical", stats.Identical)
+	r.Extra("unreachable_functions_kept_note", map[string]interface{}{"count": stats.KeptUnreachable, "first": keptNote})
+	r.Extra("corpus_items", corpusSeen)
+	r.Extra("corpus_functions_removed", corpusRemoved)
+	r.Extra("corpus_outside_subset", corpusSkipped)
+
+	if !capped {
+		if stats.Cases != total {
+			r.HarnessError("enumeration mismatch: %d cases evaluated, %d enumerated", stats.Cases, total)
+		}
+		if stats.RemovedSome < total/20 {
+			r.HarnessError("vacuous: only %d of %d cases had anything removed", stats.RemovedSome, total)
+		}
+		if r.DistinctCount() < total/50 {
+			r.HarnessError("vacuous: %d distinct outcomes over %d cases", r.DistinctCount(), total)
+		}
+		if corpusSeen != len(cj) {
+			r.HarnessError("corpus: %d of %d items evaluated", corpusSeen, len(cj))
+		}
+	}
+	lap("done")
+	r.Finish()
+}
+
+func tail(s string, n int) string {
+	if len(s) > n {
+		return s[len(s)-n:]
+	}
+	return s
 }
